@@ -13,7 +13,10 @@ def world():
     return World(
         "owner", {"src": ["0", "1"]},
         {"default.x.do": [S(deps=["src"])], "t.do": [S(deps=["src"], out="file")], "all.do": [S(deps=["a.x", "t"])]},
-        ["all", "a.x", "t"], ["all", "a.x", "t"])
+        ["all", "a.x", "t"], ["all", "a.x", "t"],
+        # non-initial seed states: a generated file the user edited and redo has already noticed (override flagged)
+        prefixes=[[["ifchange", ["all"]], ["uwrite", "a.x", "U1\n"], ["ifchange", ["a.x"]]],
+                  [["ifchange", ["all"]], ["ureplace", "t", "R\n"], ["redo", ["t"]]]])
 
 
 def step_check(proj, i, obs):
@@ -61,7 +64,7 @@ def alphabet(w, h):
 def main(tier):
     w = world()
     return e1prop.run_property(
-        PID, tier, [(w, alphabet, 3 if tier == "quick" else 5)], "rv.props.c11",
+        PID, tier, [(w, alphabet, 3 if tier == "quick" else 5, 2 if tier == "quick" else 3)], "rv.props.c11",
         rule="BFS over all histories <= d (quick 3, thorough 5) of {redo-ifchange a.x|t|all, redo a.x|t, edit src, and for each of "
              "the names a.x (matched by default.x.do) and t (t.do): user-edit in place (two contents of different size), "
              "user-replace (new inode), user-rm}; an ownership ledger records the last writer of each path; oracle: every "
